@@ -5,6 +5,7 @@ import (
 	"sync"
 	"time"
 
+	"github.com/restic/restic/internal/restic"
 	"github.com/restic/restic/internal/verifrt"
 )
 
@@ -180,3 +181,68 @@ func VerifC13_Monitor() {
 	verifrt.Reach("monitor-done")
 }
 
+
+// VerifC13_Combined: both lock goroutines (refreshLocks and monitorLockRefresh) wired together as in
+// locker.Lock, with a harness clock, harness-controlled tickers and a lock store whose Save may be slow
+// (10 minutes of clock time pass while it runs) or fail. Fairness of the poll ticker is modelled: after
+// every clock step the monitor is offered a poll tick (it takes it as soon as it is back in its select).
+// The two goroutines must never block each other (the engine reports that as a deadlock), and once the
+// monitor has looked at a clock that is past the staleness limit the holder's context must be cancelled.
+func VerifC13_Combined() {
+	now := time.Unix(1700000000, 0)
+	s := &verifC13Store{otherDel: -1, reliable: true}
+	l := verifC13Setup(s, &now)
+	verifrt.Stub("internal/restic.SaveJSONUnpacked", func(_ context.Context, _ restic.SaverUnpacked[restic.FileType], _ restic.FileType, _ any) (restic.ID, error) {
+		if verifrt.Bool("slowSave") {
+			// a stalled backend / retries: within what the retry layer allows for one operation
+			now = now.Add(10 * time.Minute)
+		}
+		return s.save()
+	})
+	tickers := verifC13Tickers()
+	lk := &locker{refreshInterval: 5 * time.Minute, refreshabilityTimeout: staleLockTimeout - 5*time.Minute*3/2}
+	ctx, cancel := context.WithCancel(context.Background())
+	cancelled := false
+	u := &unlocker{lock: l}
+	u.cancel = func() { cancelled = true; cancel() }
+	u.refreshWG.Add(2)
+	refreshChan := make(chan struct{})
+	forceChan := make(chan refreshLockRequest)
+	refDone, monDone := make(chan struct{}), make(chan struct{})
+	go func() {
+		lk.refreshLocks(ctx, verifC13Backend{events: new([]string)}, u, refreshChan, forceChan, func(string, ...any) {})
+		close(refDone)
+	}()
+	refTick := <-tickers
+	go func() {
+		lk.monitorLockRefresh(ctx, u, refreshChan, forceChan, func(string, ...any) {})
+		close(monDone)
+	}()
+	pollTick := <-tickers
+
+	steps := verifrt.Param("steps", 3)
+	for i := 0; i < steps && !cancelled; i++ {
+		if verifrt.Bool("longStep") {
+			now = now.Add(10 * time.Minute) // e.g. a missed refresh tick
+		} else {
+			now = now.Add(time.Minute)
+		}
+		// the poll ticker fires every second: the monitor sees the new time as soon as it is in its select
+		select {
+		case pollTick <- now:
+		case <-monDone:
+		case <-refDone:
+		}
+		if verifrt.Bool("refreshTick") {
+			select {
+			case refTick <- now:
+			case <-monDone:
+			case <-refDone:
+			}
+		}
+	}
+	cancel()
+	<-refDone
+	<-monDone
+	verifrt.Reach("combined-done")
+}
